@@ -855,8 +855,10 @@ SLOTNAMES = ["a", "ab", "abc", "", "api/x", "A", "a/", "x y", "é", "b"]
 def gen_C15(rng, count, tier):
     for i in range(count):
         regs = []
+        two = rng.random() < 0.3          # registrations on receivers of two classes that declare the same slot signatures
         for _ in range(rng.randrange(0, 6)):
-            regs.append("reg:%s:%s:%d" % (hx16(pick(rng, SLOTNAMES)), pick(rng, ["old", "pmf", "functor", "old", "missing", "wrongsig"]), rng.randrange(2)))
+            kinds = ["old", "old2", "old", "old2", "pmf", "missing", "wrongsig"] if two else ["old", "pmf", "functor", "old", "missing", "wrongsig"]
+            regs.append("reg:%s:%s:%d" % (hx16(pick(rng, SLOTNAMES)), pick(rng, kinds), rng.randrange(2)))
         name = pick(rng, SLOTNAMES) if rng.random() < 0.85 else pick(rng, ["zzz", "a/b", "AB"])
         target = "/" + name.replace(" ", "%20").replace("é", "%C3%A9")
         n = pick(rng, [None, 0, 1, 3, 8, 16390 if rng.random() < 0.1 else 5])
@@ -878,6 +880,13 @@ def gen_C15(rng, count, tier):
         if rng.random() < 0.15:
             evs.append("peerclose")
         evs.append("turn")
+        if rng.random() < (0.7 if two else 0.15):
+            # earlier complete requests for (mostly registered) names on the same handler
+            warm = []
+            for _ in range(rng.choice([1, 2, 3])):
+                wn = pick(rng, SLOTNAMES).replace(" ", "%20").replace("é", "%C3%A9")
+                warm.append("warm:" + hx(("POST /%s HTTP/1.1\r\nContent-Length: 2\r\n\r\nhi" % wn).encode()))
+            evs = warm + evs
         yield ("slot", " ".join(regs + evs))
 
 
@@ -1130,6 +1139,10 @@ def gen_C10(rng, count, tier):
             # no segment is delivered on a connection the client has already left
             evs = evs[:pos] + [mid] + ([] if mid != "turn" else evs[pos:])
         toks = ["kind:" + kind, "root:" + hx(FSROOT.encode())]
+        if kind == "proxy" and rng.random() < 0.4:
+            # the client is gone (and its objects deleted) before the upstream connection is established
+            evs = ["new", "feed:" + hx(req), pick(rng, ["peerclose", "peerclose", "killserver"]), "reap", "turn", "turn"]
+            tail = [pick(rng, ["turn", "reap", "ackall"]) for _ in range(rng.randrange(0, 3))]
         yield ("life", " ".join(toks + evs + tail))
 
 
